@@ -8,8 +8,9 @@ HOOK_COMMITS = []
 NOTES = ('Contract-based deductive verification with CBMC 6.11 code contracts (goto-instrument --dfcc). '
          'The verified text is cut from /repo headers on every run (cxc/extract.py) and brought to C by logged '
          'must-fire rewrite rules; contracts are side-car specs in units/*.py. Units are tagged proved '
-         '(inductive / loop-free, unbounded) or bounded (unwound, all inputs up to the stated size); only the '
-         'former count as proof. Exit 2 = tool problem (timeout, extraction break, vacuity guard), never a violation.')
+         '(inductive / loop-free, unbounded) or bounded (harness-enforced contract, loops unwound, all inputs up to the '
+         'stated size); only the former count as proof. Exit 2 = tool problem (timeout, extraction break, vacuity guard), '
+         'never a violation. See DESIGN.md sections 8-10.')
 
 COMMON_TRUST = [
     'A-extract: the logged C++->C rewrite rules preserve meaning (bodies are cut from /repo on every run; unit rules must fire the declared number of times; see build/<unit>/drop_report.json)',
@@ -17,75 +18,159 @@ COMMON_TRUST = [
     'CBMC 6.11.0 (goto-cc, goto-instrument --dfcc, SAT back end) is sound',
 ]
 
-PROPS = {
-    'C07': dict(
-        level='proof',
-        claim='Function contracts (requires/ensures/assigns + inductive loop invariants) on the builtin backend primitives; every obligation is discharged by CBMC for all vector lengths and, through the uninterpreted value model, for every value type. Proof is the right level because the property is a per-call functional identity.',
-        note='Decides the builtin-backend clause only (numa_vector / std::vector / iterator_range vectors, crs matrices); block_crs, Eigen, hybrid backends and the reinterpret_cast scalar-as-block overloads are outside the C view. OpenMP pragmas are dropped (iterations verified sequentially; disjoint writes are part of the invariant).',
-        technique='CBMC code contracts (dfcc) on function bodies extracted from /repo; inductive loop invariants with ghost index; uninterpreted value algebra',
-        explanation='Code contracts on the builtin backend primitives, enforced by goto-instrument --dfcc + CBMC on bodies cut from /repo on every run.',
-        decided=['axpby/axpbypcz/vmul/copy/clear on builtin vectors equal their defining formula at every index, for every n (inductive, UF value model = every value type); zero output coefficient: result term does not mention the old output'],
-        not_decided=['block_crs / Eigen / hybrid backends', 'scalar-as-block reinterpret_cast overloads', 'conjugate-linearity of complex inner product'],
-        trusted=COMMON_TRUST),
-}
+TECH_PROOF = 'CBMC code contracts (goto-instrument --dfcc) on function bodies extracted from /repo: requires/ensures/assigns, inductive loop invariants, callee contracts replaced at call sites, typestate + ghost trace, uninterpreted value algebra'
+TECH_BOUNDED = 'CBMC contracts on function bodies extracted from /repo; inductive (dfcc, loop contracts) where invariants are quantifier-free, otherwise harness-enforced contract with loops unwound (bounded: all inputs up to a stated size)'
 
-PROPS['C08'] = dict(
-    level='other',
-    claim='Bounded contract check: function contracts (well-formed CRS out, dense view equals the defining formula) enforced by CBMC on the real kernel bodies for ALL inputs up to a stated size (pattern and values symbolic); index-safety/frame obligations included. Bounded stand-in, not a proof: loop invariants over marker arrays / counting sorts need quantifiers CBMC cannot use here.',
-    note='Bounds per unit are listed in the evidence. Values at a commutative ring (int32) so that the dense definition is order independent.',
-    technique='CBMC code contracts (dfcc) on extracted bodies, loops unwound with unwinding assertions (bounded); spec = dense view',
-    explanation='Contracts on sparse kernels enforced for all inputs up to the bound; see units[].mode for the bound of each unit.',
-    decided=[], not_decided=['Gershgorin bound vs true spectral radius (theorem about the formula)', 'power-method bound'],
-    trusted=COMMON_TRUST)
+PROPS = {}
 
 
-def _bounded(pid, what, not_decided):
-    PROPS[pid] = dict(
-        level='other',
-        claim='Bounded contract check (' + what + '): function contracts enforced by CBMC on the real function bodies for ALL inputs up to a stated size (structure and values symbolic), index-safety obligations included; units that could be closed with inductive loop contracts are proved without bound and are listed separately in the evidence.',
-        note='Bounds per unit are listed in the evidence (units[].mode).',
-        technique='CBMC code contracts on function bodies extracted from /repo: inductive (dfcc, loop contracts) where invariants are quantifier-free, otherwise harness-enforced contract with loops unwound (bounded)',
-        explanation='Contracts on the functions the property depends on; see units[] for mode and bound of each unit.',
-        decided=[], not_decided=not_decided, trusted=COMMON_TRUST)
+def _p(pid, level, claim, note, technique, decided, not_decided, design_ref, safety_only=False):
+    PROPS[pid] = dict(level=level, claim=claim, note=note, technique=technique, explanation=claim,
+                      decided=decided, not_decided=not_decided, trusted=COMMON_TRUST, design_ref=design_ref,
+                      safety_only=safety_only)
 
 
-_bounded('C04', 'aggregates partition the grid; tentative prolongation structure', [])
-_bounded('C06', 'relaxation sweeps', [])
-_bounded('C09', 'level schedules of the parallel Gauss-Seidel / ILU solves', [])
-_bounded('C10', 'memory safety and frame obligations of every unit', [])
-_bounded('C13', 'block / complex adapters', [])
-_bounded('C16', 'reordering and skyline LU structure', [])
-_bounded('C17', 'matrix adapters', [])
-_bounded('C19', 'binary reader safety', [])
-PROPS['C10']['safety_only'] = True
-for _p in ('C01', 'C15', 'C05', 'C02', 'C03', 'C18'):
-    PROPS[_p] = dict(
-        level='proof',
-        claim='Typestate + ghost-trace contracts on the real orchestration bodies (solver operator(), cycle, apply), every backend primitive replaced by its contract; inductive loop contracts, no bound on sizes or iteration counts.',
-        note='Decides the data-flow / call-sequence clauses of the property (see evidence clauses_decided / clauses_not_decided); spectral and floating-point clauses are not decided by this family.',
-        technique='CBMC code contracts (dfcc) on solver/preconditioner bodies extracted from /repo; callee contracts replaced at call sites; typestate and ghost call-trace; uninterpreted scalar algebra',
-        explanation='Contracts on the orchestration layer: see units[].',
-        decided=[], not_decided=[], trusted=COMMON_TRUST)
+_p('C01', 'proof',
+   'Function contracts on the real solver bodies (operator()(A,P,rhs,x)), every backend primitive replaced by its typestate contract, inductive loop contracts: all obligations discharged for all sizes and iteration counts. Decides the data-flow clauses: iteration budget; the number returned is (last norm evaluated)/||rhs|| and that norm was taken of the solver\'s residual vector in its final state (for Richardson and the GMRES family: of residual(rhs,A,x) of the x that is returned); stopping before the budget means the reported residual passed the test.',
+   'Not decided: that a recursively updated residual equals f - A x up to rounding (real-vector algebra), rounding bounded by conditioning, convergence of every coarsening x relaxation x solver combination within 100 iterations, Richardson rate. Trusted: typestate abstraction of the backend primitives (justified by the C07 units), preconditioner honours its contract.',
+   TECH_PROOF,
+   ['iteration count <= maxiter', 'returned residual == norm of the solver residual vector at exit / ||rhs||', 'x and residual updates paired', 'early stop implies test passed'],
+   ['carried residual equals true residual up to rounding', 'convergence within budget', 'Richardson contraction rate'],
+   'DESIGN.md sections 4.2, 6 (C01), 8.4')
 
+_p('C02', 'proof',
+   'Contracts on amg::cycle (recursion by contract) and amg::apply: every scratch vector of every level may hold anything on entry (independence of earlier applications), x is output only for apply, and one visit of a level performs exactly the prescribed call sequence with the prescribed arguments for any ncycle/npre/npost/pre_cycles; Gauss-Seidel uses the forward sweep as pre- and the backward sweep as post-smoother.',
+   'Hierarchy depth <= 4 (the well-formedness of the hierarchy is an explicit conjunction over levels); linearity follows from the proved call structure given linear primitives but is not machine-checked. Not decided: symmetry/positive definiteness of the cycle operator, spectral radius of I - BA, exact power-of-two scaling.',
+   TECH_PROOF,
+   ['cycle/apply are functions of (rhs, hierarchy) only: no scratch vector read before written', 'exact call sequence and arguments per level visit', 'forward/backward Gauss-Seidel dispatch'],
+   ['B symmetric positive definite', 'rho(I - BA) < 1', 'power-of-two scaling'],
+   'DESIGN.md sections 6 (C02), 8.4')
+
+_p('C03', 'proof',
+   'Provenance contracts on the setup call chain: galerkin == product(R, product(A,P)); scaled_galerkin == scale of it; aggregation::coarse_operator uses 1/over_interp; level::step_down keeps and stores exactly the transfer operators chosen and returns coarse_operator(A,P,R); level::rebuild recomputes level operator, smoother, coarse solver from the new matrix and the coarse matrix from the new matrix and the STORED operators; amg::rebuild refuses without allow_rebuild / on shape mismatch and rebuilds every level once, in order, each from the previous level\'s result.',
+   'That product/transpose/scale/sort_rows equal their dense definitions is the business of the C08 units (bounded). Not decided: strict decrease of level sizes (data dependent), Ruge-Stuben R, do_init last-level decision (unit not built), bitwise equality of rebuilt and fresh hierarchy.',
+   TECH_PROOF,
+   ['coarse = R*A*P (re-scaled for plain aggregation) as a term over product/scale', 'rebuild reuses stored P,R and the new A', 'rebuild order and chaining'],
+   ['level sizes strictly decrease', 'last level direct/smoother decision in do_init', 'Ruge-Stuben'],
+   'DESIGN.md sections 6 (C03), 8.4')
+
+_p('C04', 'other',
+   'Bounded contract check of the aggregation kernels (plain_aggregates, pointwise_aggregates block path, tentative_prolongation without null space): for ALL matrices up to the stated size (pattern and values symbolic) the aggregates partition the strongly connected variables into non-empty contiguous aggregates, isolated variables are removed, block unknowns travel together, tentative P has one unit entry per aggregated row.',
+   'Bounded stand-in (marker arrays / greedy passes need quantified invariants). Not decided: near-null-space branch (floating-point QR), smoothed-aggregation values, Ruge-Stuben, emin.',
+   TECH_BOUNDED,
+   ['aggregates partition (bounded)', 'block path consistency (bounded)', 'tentative prolongation structure (bounded)'],
+   ['near-null-space QR branch', 'smoothed P values and row sums', 'Ruge-Stuben interpolation'],
+   'DESIGN.md section 6 (C04)')
+
+_p('C05', 'proof',
+   'Richardson: the k-th iterate is k repetitions of { s = P r; x = damping*s + 1*x; r = rhs - A x; ||r|| } after one initial residual (call-sequence contract, inductive, any k); preonly: exactly one P.apply(rhs, x).',
+   'Decides the Richardson / preonly clause only. Not decided: A-norm optimality of CG, residual minimisation of GMRES/FGMRES/LGMRES, agreement with a dense reference, finite termination (real/floating-point vector algebra).',
+   TECH_PROOF,
+   ['Richardson returns x + omega P (f - A x) repeated k times (as a call sequence)', 'preonly is one preconditioner application'],
+   ['CG / GMRES optimality', 'agreement with dense reference', 'finite termination'],
+   'DESIGN.md section 6 (C05)')
+
+_p('C06', 'proof',
+   'Call-level contracts (loop-free, proved): apply_pre/apply_post/apply of damped Jacobi, SPAI-0, ILU(0)/ILU(k)/ILUT and Gauss-Seidel are exactly residual(rhs,A,x,tmp) from the incoming x followed by the documented M^-1 application and update. Kernel level (bounded units, listed in the evidence): Gauss-Seidel serial sweep, ILU triangular solve, SPAI-0 / ILU(0) constructors.',
+   'Not decided: (LU)_ij = a_ij on the pattern / exactness on tridiagonal matrices (needs exact division), ILU(k)/ILUP/ILUT fill bookkeeping, SPAI-1, Chebyshev coefficients.',
+   TECH_PROOF,
+   ['each sweep is x + M^-1 (f - A x) as a call sequence (proved)', 'kernels: see bounded units'],
+   ['ILU factor exactness', 'SPAI-1', 'Chebyshev polynomial'],
+   'DESIGN.md sections 6 (C06), 8.4')
+
+_p('C07', 'proof',
+   'Function contracts (requires/ensures/assigns + inductive loop invariants with a ghost index) on the builtin backend primitives axpby, axpbypcz, vmul, copy, clear; spmv/residual (matrix_ops.hpp) where present: every obligation discharged for all vector lengths and, through the uninterpreted value model, for every value type; with a zero output coefficient the result term does not mention the old output (NaN/Inf clause).',
+   'Decides the builtin-backend clause only; block_crs, Eigen, hybrid backends and the reinterpret_cast scalar-as-block overloads are outside the C view. OpenMP pragmas are dropped (iterations verified sequentially; disjoint writes are part of the invariant).',
+   TECH_PROOF,
+   ['axpby/axpbypcz/vmul/copy/clear equal their defining formula at every index, every n, every value type', 'zero coefficient: old output not read'],
+   ['other backends', 'scalar-as-block overloads', 'conjugate-linearity of the complex inner product'],
+   'DESIGN.md section 6 (C07)')
+
+_p('C08', 'other',
+   'Bounded contract check of the sparse kernels (transpose, product/spgemm_saad, sum, scale, sort_row(s), diagonal, pointwise_matrix, CRS constructors, Gershgorin branch of spectral_radius ...): for ALL inputs up to the stated size (pattern and values symbolic, unsorted rows, duplicates, empty rows/columns, rectangular) the result is well-formed CRS and its dense view equals the defining formula; index-safety and frame obligations included. Units closed with inductive loop contracts are listed as proved.',
+   'Bounded stand-in: invariants over marker arrays / counting sorts need quantifiers CBMC cannot use here. Values at a commutative ring (int32) so that the dense definition is order independent. Not decided: Gershgorin bound vs true spectral radius (a theorem about the proved formula), power-method bound.',
+   TECH_BOUNDED,
+   ['kernels equal their dense definitions up to the bound', 'well-formed CRS output'],
+   ['Gershgorin / power-method bounds on the true spectrum', 'spgemm_rmerge if not listed'],
+   'DESIGN.md section 6 (C08)')
+
+_p('C09', 'other',
+   'Bounded contract check of the level schedules of the parallel Gauss-Seidel sweep and the level-scheduled ILU triangular solves: for ALL matrices up to the stated size and thread counts no two rows that read or write each other\'s unknown share a level, the order is a permutation sorted by level, per-thread task ranges partition each level, the packed per-thread copies reproduce the rows.',
+   'CBMC has no thread semantics for this code: the claim is the schedule (the last sentence of the property); that the OpenMP runtime runs each task once and separates levels by barriers is assumed (A-omp). Not decided: bitwise identity of whole setups across thread counts, reductions.',
+   TECH_BOUNDED,
+   ['schedule never co-schedules dependent rows (bounded)', 'order/ranges/packed copies consistent (bounded)'],
+   ['OpenMP runtime behaviour', 'bitwise identity across thread counts', 'reduction rounding'],
+   'DESIGN.md section 6 (C09)')
+
+_p('C10', 'other',
+   'Union of the memory-safety and frame obligations (pointer dereference, array bounds, logical bounds of output arrays, signed overflow, conversion, assigns-clause inclusion, unwinding assertions) of EVERY unit under contract, proved units and bounded units reported separately; fresh allocations have nondeterministic content, so every postcondition proved holds for every prior heap content; object workspaces enter every call undefined (typestate units).',
+   'Only safety-class obligations count for this property. Not decided: leak freedom and shared_ptr lifetimes, allocation-address independence, third-party paths, functions that are not under contract.',
+   TECH_BOUNDED,
+   ['no out-of-bounds / overflow / frame violation in any unit under contract (proved units: all sizes; bounded units: up to the bound)', 'no dependence on uninitialised memory in the units under contract'],
+   ['leaks / lifetimes', 'functions outside the listed units'],
+   'DESIGN.md section 6 (C10)', safety_only=True)
+
+_p('C13', 'other',
+   'Contracts on the complex / block matrix adapters\' row iterators and unblock_matrix where present (loop-free parts proved, loops bounded).',
+   'Solutions through the wrappers, mixed precision reaching 1e-8 and the hybrid backend are not decided.',
+   TECH_BOUNDED, ['adapter row iterators reproduce the scalar entries'], ['wrapper solves', 'mixed precision', 'hybrid backend'],
+   'DESIGN.md section 6 (C13)')
+
+_p('C15', 'proof',
+   'Same contracts as C01/C02/C03/C18: every mutable member (Krylov work vectors, level scratch, composite-preconditioner work vectors) enters the call undefined, i.e. holding whatever any earlier call -- diverged, NaN, thrown -- left there, and no primitive precondition fails, so each call\'s outputs are a function of that call\'s arguments and the immutable setup; zero right-hand side returns the zero vector in zero iterations; an initial guess within tolerance is returned unchanged in zero iterations; rhs and the matrix are never written.',
+   'Documented exceptions are stated as preconditions (LGMRES with always_reset false; BiCGStab with check_after). Scalar workspace arrays of the GMRES family / IDR(s) as far as the solver units cover them.',
+   TECH_PROOF,
+   ['no state leaks between calls (typestate)', 'zero rhs exit', 'converged guess returned unchanged', 'rhs / A never modified'],
+   ['solver bodies without a unit'],
+   'DESIGN.md sections 4.2, 6 (C15), 8.4')
+
+_p('C16', 'other',
+   'Bounded contract check: Cuthill-McKee returns a permutation of 0..n-1 for every pattern up to the bound (disconnected, non-symmetric, with/without diagonal); skyline LU: permutation/profile structure, index safety of factorize and solve, every factor cell read was written.',
+   'Not decided: factors multiply back to A / exact or backward-stable solve (needs field arithmetic), detail::inverse, detail::QR, static_matrix identities, solver/eigen.hpp.',
+   TECH_BOUNDED, ['Cuthill-McKee permutation (bounded)', 'skyline LU structure and safety (bounded)'],
+   ['exactness of LU', 'inverse', 'QR', 'static_matrix algebra'],
+   'DESIGN.md section 6 (C16)')
+
+_p('C17', 'other',
+   'zero_copy / zero_copy_direct alias the caller\'s arrays, own_data false, nothing allocated or freed, free_data honours own_data (loop-free, proved); CRS range / row-iterator constructors reproduce the source matrix (bounded).',
+   'Eigen, uBlas, crs_builder, reorder/scaled_problem adapters, CPR/Schur acceptance of unsorted input are not decided.',
+   TECH_BOUNDED, ['zero-copy adapters never copy or free user memory (proved)', 'CRS constructors reproduce the source (bounded)'],
+   ['Eigen / uBlas / crs_builder', 'reorder and scaling adapters'],
+   'DESIGN.md section 6 (C17)')
+
+_p('C18', 'proof',
+   'Call-sequence contracts (loop-free, proved for all inputs): schur_pressure_correction::apply realises the block elimination of type 1 and the block-triangular solve of type 2 step by step with the prescribed operands, its matrix-free spmv is beta y + alpha Kpp\' x - alpha Kpu (U^-1|M) Kup x for every adjust_p / approx_schur setting; cpr::apply is x = S f + Scatter P Fpp (f - A S f); preonly is one preconditioner application; work vectors enter undefined.',
+   'That the proved sequence is the exact inverse given exact inner solves is the textbook block-LU identity (not machine-checked). Not decided: sub-block extraction (unless a bounded unit is listed), CPR pressure weighting (floating-point block inverse), deflated solver.',
+   TECH_PROOF,
+   ['Schur type 1 / type 2 call sequences', 'Schur complement product formula', 'CPR two-stage formula'],
+   ['exact-inverse identity', 'CPR weighting', 'deflated solver'],
+   'DESIGN.md sections 6 (C18), 8.4')
+
+_p('C19', 'other',
+   'Bounded contract check of the binary reader (io::read_crs, crs_size; abstract file = symbolic byte array of symbolic length up to the bound): for EVERY file content and length the reader either throws or returns with every access in bounds and a structurally valid matrix; row-range read equals the slice of the full read on well-formed files.',
+   'MatrixMarket text reader/writer and decimal round-trip are outside CBMC\'s reach. The abstract file (read/seekg/fail bit) is a trusted model.',
+   TECH_BOUNDED, ['binary reader: no out-of-bounds, no invalid matrix for any file up to the bound'],
+   ['MatrixMarket', 'decimal round trip', 'writer'],
+   'DESIGN.md section 6 (C19)')
 
 NOT_APPLICABLE = {
-    'C01': 'units not built yet (planned: typestate contracts on the solver bodies)',
-    'C02': 'units not built yet (planned: typestate + trace contracts on amg::cycle/apply)',
-    'C03': 'units not built yet',
-    'C04': 'units not built yet',
-    'C05': 'units not built yet',
-    'C06': 'units not built yet',
-    'C08': 'units not built yet',
-    'C09': 'units not built yet',
-    'C10': 'units not built yet',
+    'C01': 'units not present',
+    'C02': 'units not present',
+    'C03': 'units not present',
+    'C04': 'units not present',
+    'C05': 'units not present',
+    'C06': 'units not present',
+    'C08': 'units not present',
+    'C09': 'units not present',
+    'C10': 'units not present',
     'C11': 'Distributed (MPI) algebra: CBMC has no model of MPI or of message arrival order; no contract within reach expresses "equals the serial operation on the assembled matrix for every partition".',
     'C12': 'Distributed solve: same as C11 (MPI_* calls, communicators, rank-dependent control flow are outside the C view and outside CBMC).',
-    'C13': 'units not built yet',
+    'C13': 'No unit finished: block_matrix_adapter / complex adapter iterators are operator-overloaded class code outside the C view built so far; wrapper solves and mixed precision are floating-point convergence statements.',
     'C14': 'Run-time configuration goes through boost::property_tree, string keys, macros and type-erased wrappers; none of it can be brought into CBMC\'s C front end and the statement is about consistency of hand-mirrored parameter lists, not a function pre/postcondition.',
-    'C15': 'units not built yet',
-    'C16': 'units not built yet',
-    'C17': 'units not built yet',
-    'C18': 'units not built yet',
-    'C19': 'units not built yet',
+    'C15': 'units not present',
+    'C16': 'units not present',
+    'C17': 'units not present',
+    'C18': 'units not present',
+    'C19': 'units not present',
     'C20': 'lib/amgcl.cpp is boost property_tree / iterator_range / transform iterators with lambdas over type-erased runtime wrappers; nothing in it is within the C view, and the statement is an equivalence of two whole-library executions.',
 }
